@@ -200,9 +200,38 @@ def run(ctx: Ctx) -> None:
     for _ in range(50):
         b = ctx.rng.randrange(MAX_MICROS * 1000 - 3000)
         ns += list(range(b, b + 40))
+    # nanosecond counts just below / above whole seconds and whole microseconds (rounding carries)
+    for _ in range(400 if ctx.tier == "quick" else 4000):
+        sec = ctx.rng.randrange(MAX_MICROS // 10**6 - 1) + 1
+        for d in (1, 100, 300, 499, 500, 501, 700, 999):
+            ns += [sec * 10**9 - d, sec * 10**9 + d]
+        us = ctx.rng.randrange(MAX_MICROS - 2) + 1
+        for d in (1, 499, 500, 501, 999):
+            ns += [us * 1000 - d, us * 1000 + d]
     ns = sorted(set(ns))
     ctx.tick("order_ns", len(ns))
-    outs = [impl_from(n) for n in ns]
+    outs = []
+    import re as _re
+    shape = _re.compile(r"^\d{4}-\d{2}-\d{2}T\d{2}:\d{2}:\d{2}\.\d{6}Z$")
+    for n in ns:
+        try:
+            o = impl_from(n)
+        except Exception as ex:  # noqa: BLE001
+            o = f"<raised {type(ex).__name__}: {ex}>"
+        outs.append(o)
+        # oracle on the implementation alone: a well-formed PV text denoting the nearest microsecond
+        ok = bool(shape.match(o))
+        if ok:
+            try:
+                dt = datetime.strptime(o, "%Y-%m-%dT%H:%M:%S.%fZ").replace(tzinfo=timezone.utc)
+                kk = (dt - EPOCH) // timedelta(microseconds=1)
+                ok = abs(kk * 1000 - n) <= 1000
+            except ValueError:
+                ok = False
+        if not ok and not ctx.too_many():
+            ctx.violation(f"unix_nano_to_pv_string({n}) = {o!r}: not the PV text of the instant (nearest microsecond "
+                          f"{expected_string(min((n + 500) // 1000, MAX_MICROS - 1))!r})",
+                          {"input": {"nanos": n}, "observed": o}, key=("ns", n))
     for (n1, s1), (n2, s2) in zip(zip(ns, outs), zip(ns[1:], outs[1:])):
         if s1 > s2:
             ctx.violation(f"order: {n1} <= {n2} but {s1!r} > {s2!r}",
